@@ -38,11 +38,11 @@ def repo_hash():
 
 
 def check_typedefs():
-    """The macro substitution covers `double` and four Eigen typedefs.  Any other fixed double typedef used by
-    the library text would silently stay concrete: refuse to run in that case."""
+    """The macro substitution covers `double` and the Eigen Matrix/Vector/Array double typedefs (symx/pre.hpp).  Any other
+    fixed floating-point type used by the library text would silently stay concrete: warn."""
     import re
     bad = []
-    pat = re.compile(r'\b(Vector[234]d|RowVector[234X]d|Matrix4d|MatrixX[234]d|Matrix[234]Xd|Array[234X]{1,2}d|Affine3d|Quaterniond|long\s+double|float)\b')
+    pat = re.compile(r'\b(Affine[23]d|Projective[23]d|Isometry[23]d|Translation[23]d|AlignedBox[123X]d|Quaterniond|AngleAxisd|Rotation2Dd|long\s+double|float|(Vector|RowVector|Matrix|Array)[234X]{1,2}f)\b')
     for f in headers():
         for i, line in enumerate(open(f, errors='replace'), 1):
             code = line.split('//')[0]
@@ -72,8 +72,8 @@ def ppoly_tu(dim, pord):
 
 
 def opt_tu(order, dim, tmap='quad', smap='ident'):
-    tm = {'quad': 0, 'ident': 1, 'user': 2}[tmap]
-    sm = {'ident': 0, 'affine': 1, 'quadr': 2}[smap]
+    tm = {'quad': 0, 'ident': 1, 'gen': 2}[tmap]
+    sm = {'ident': 0, 'gen': 1}[smap]
     return TU('tu_opt.cpp', {'HX_ORDER': order, 'HX_DIM': dim, 'HX_TMAP': tm, 'HX_SMAP': sm}, 'opt_%d_%d_%s_%s' % (order, dim, tmap, smap))
 
 
